@@ -21,7 +21,7 @@ RULE = ("agent parameter grids x market states (price histories built by real tr
 WIT = ["fcn_buy", "fcn_sell", "fcn_nothing", "fcn_inaccessible", "fcn_clock_below_window", "fcn_mean_reversion_distinct",
        "share_choice_0", "share_choice_1", "share_zero_volume", "mm_quotes", "mm_base_from_market_price", "mm_inaccessible_market_ignored",
        "mm_market_order_on_top", "arb_no_action_within_threshold", "arb_gap_exactly_threshold", "arb_buy_index", "arb_sell_index",
-       "arb_not_running", "arb_two_indices_acted", "arb_component_moved_between_consultations", "test_agent_cases", "fcn_normal_margin_cases", "fcn_on_index_market", "fcn_two_markets_different_clocks", "group_member_setups", "well_formed_orders"]
+       "arb_not_running", "arb_two_indices_acted", "arb_component_moved_between_consultations", "test_agent_cases", "fcn_normal_margin_cases", "fcn_on_index_market", "fcn_two_markets_different_clocks", "fcn_zero_or_negative_holdings", "group_member_setups", "well_formed_orders"]
 
 
 class Sim:
@@ -221,6 +221,19 @@ def fcn_fn(case, wit):
                             m.get_time(), m2.get_time(), "longer" if first == 0 else "shorter", mid, hist, fund, wf, wc, wn, ns, g, win, mr, k)
                         check_fcn_orders([o for o in orders if o.market_id == mid], mk_, p, r, ph, k, win, mid, wit, tag)
                     wit.inc("fcn_two_markets_different_clocks")
+    # holdings of zero or below zero in an accessible market change nothing about the strategy
+    for av in (0, -3):
+        for (wf, wc, wn) in ((1, 0, 0), (1, 1, 1)):
+            for ns, g, win, mr, k in ((0, 0.0, 2, None, 0), (2.0 ** -7, -2.0, 5, 4, 0.125)):
+                a = FCNAgent(3, StubRandom(g=g), Sim(), "a")
+                a.setup({"cashAmount": 0, "assetVolume": av, "fundamentalWeight": wf, "chartWeight": wc, "noiseWeight": wn, "noiseScale": ns,
+                         "timeWindowSize": win, "orderMargin": k, **({"meanReversionTime": mr} if mr else {})}, [0])
+                orders = a.submit_orders([m])
+                for o in orders:
+                    well_formed(o, a, wit)
+                p, r, ph = fcn_reference(m, fund, wf, wc, wn, ns, g, win, mr)
+                check_fcn_orders(orders, m, p, r, ph, k, win, 0, wit, "agent holding %d shares and no cash: history %s fundamental %s weights (%s,%s,%s)" % (av, hist, fund, wf, wc, wn))
+                wit.inc("fcn_zero_or_negative_holdings")
     # not accessible: nothing
     a = FCNAgent(3, StubRandom(g=1.0), Sim(), "a")
     a.setup({"cashAmount": 100, "assetVolume": 1, "fundamentalWeight": 1, "chartWeight": 1, "noiseWeight": 1, "noiseScale": 0.01,
